@@ -189,10 +189,10 @@ struct MObj {
     int m0, m1, m2, m3, m4, m5, m6;
     int mo, mp, mq;
     float mf;
-    bool mt;
+    bool ms_on;      // its name extends the name of the sub-tree it enables (ms/)
     char ma[4];
     MSub ms;
-    MObj() : m0(10), m1(11), m2(12), m3(13), m4(14), m5(15), m6(16), mo(0), mp(20), mq(30), mf(0.5f), mt(false)
+    MObj() : m0(10), m1(11), m2(12), m3(13), m4(14), m5(15), m6(16), mo(0), mp(20), mq(30), mf(0.5f), ms_on(false)
     { for(char &c : ma) c = 3; }
     void on_change(RtData &d) {
         if(port_stem(d.port->name) != "mo") return;
@@ -204,7 +204,7 @@ struct MObj {
         I("m0", m0); I("m1", m1); I("m2", m2); I("m3", m3); I("m4", m4); I("m5", m5); I("m6", m6);
         I("mo", mo); I("mp", mp); I("mq", mq);
         out.push_back(base + "mf=" + bits_of_f(mf));
-        I("mt", mt);
+        I("ms_on", ms_on);
         out.push_back(base + "ma=" + std::to_string((int)ma[0]) + ":" + std::to_string((int)ma[1]) + ":" +
                       std::to_string((int)ma[2]) + ":" + std::to_string((int)ma[3]));
         I("ms/sa", ms.sa); I("ms/sb", ms.sb);
@@ -229,9 +229,9 @@ const Ports MObj::ports = {
     rParamI(mp, rDefaultDepends(mo), rPresets(20, 21, 22, 23, 24), rDefault(29), "d"),
     rParamI(mq, rDefaultDepends(mo), rPresetsAt(2, 32, 33, 34, 35), rDefault(30), rDepends(mp, m0, m1, m6), "d"),
     rParamF(mf, rLinear(-1.5, 2.5), rDefault(0.5), "d"),
-    rToggle(mt, rDefault(false), "d"),
+    rToggle(ms_on, rDefault(false), "d"),
     rArrayI(ma, 4, rDefault([4x3]), "d"),
-    rRecur(ms, rEnabledBy(mt), "d"),
+    rRecur(ms, rEnabledBy(ms_on), "d"),
 };
 #undef rObject
 static std::string dump_root(const MObj &r)
